@@ -33,8 +33,14 @@ without it every solver iteration would add a closure layer to each lookup. -/
 @[noinline] def lookupTab {α : Type} (a : Array α) (f : Nat → α) (v : Nat) : α :=
   if h : v < a.size then a[v] else f v
 
+/-- the table of `f` on `0..N-1`. -/
+def tab {α : Type} (N : Nat) (f : Nat → α) : Array α := Array.ofFn (n := N) (fun i => f i.val)
+
+/-- `tabulate N f = f` (LatLemmas.lean).  NB for the executable: `tabulate N f` alone is a
+partial application and would rebuild the table at every lookup (exponential over the
+iterations); `reify` below therefore binds the tables with `let` before building the state. -/
 def tabulate {α : Type} (N : Nat) (f : Nat → α) : Nat → α :=
-  lookupTab (Array.ofFn (n := N) (fun i => f i.val)) f
+  lookupTab (tab N f) f
 
 /-! ## dense solver (forward.go) -/
 namespace Dense
@@ -105,8 +111,12 @@ def queued {L : Type} (G : Graph) (s : St L) : List Nat :=
 
 /-- the same state with its functions tabulated (`reify G s = s`). -/
 def reify {L : Type} (G : Graph) (s : St L) : St L :=
-  { inF := tabulate G.n s.inF, outF := tabulate G.m s.outF,
-    dirty := tabulate G.n s.dirty, q := tabulate G.n s.q }
+  let a1 := tab G.n s.inF
+  let a2 := tab G.m s.outF
+  let a3 := tab G.n s.dirty
+  let a4 := tab G.n s.q
+  { inF := lookupTab a1 s.inF, outF := lookupTab a2 s.outF,
+    dirty := lookupTab a3 s.dirty, q := lookupTab a4 s.q }
 
 /-- Run with a schedule `pick` (chooses a position in the non-empty list of queued nodes;
 taken modulo its length) until the queue is empty or the fuel runs out.  Returns the state
@@ -171,7 +181,9 @@ def queued {L : Type} (P : Prog L) (s : St L) : List Nat :=
 
 /-- the same state with its functions tabulated over the first `nv` values. -/
 def reify {L : Type} (P : Prog L) (nv : Nat) (s : St L) : St L :=
-  { val := tabulate nv s.val, w := tabulate P.n s.w }
+  let a1 := tab nv s.val
+  let a2 := tab P.n s.w
+  { val := lookupTab a1 s.val, w := lookupTab a2 s.w }
 
 def run {L : Type} (lat : Lat L) (P : Prog L) (nv : Nat) (pick : Nat → List Nat → Nat) :
     Nat → Nat → St L → St L × Nat
